@@ -460,7 +460,7 @@ def check_gtc(chk, case):
 
 def gen_gtc(rng, i):
     """centred-instance-only predictor: crops around GROUND-TRUTH centroids (bbox midpoint of the visible
-    nodes); instance-stage scale 1 (this branch crops before the pre-crop resize); 1…4 animals mixed"""
+    nodes); every instance-stage scale (F-C02c fixed in 27bfe14); 1…4 animals mixed"""
     for _ in range(60):
         case = gen_topdown_case(rng, refine=("integral" if i % 2 else None), max_instances=None, counts=(1, 2, 2, 3, 4))
         case["videos"] = case["videos"][:1]
@@ -469,7 +469,6 @@ def gen_gtc(rng, i):
             v.append(json.loads(json.dumps(v[rng.randrange(len(v))])))
         if all(f["animals"] for f in v) and len({len(f["animals"]) for f in v}) > 1:
             break
-    case["si"] = 1.0
     for f in v:
         for a in f["animals"]:
             if all(p is None for p in a["pts"]):
